@@ -110,11 +110,19 @@ func (m *serverMutex) Unlock() {
 	m.held = false
 }
 
+// tableMutex in cooperative mode follows sync.RWMutex: a writer that is waiting keeps new
+// readers out (so a recursive read lock deadlocks exactly where it would with the real mutex),
+// and the readers queued when a writer releases the lock go in before the next writer.
 type tableMutex struct {
-	real sync.RWMutex
-	w    bool
-	r    int
+	real     sync.RWMutex
+	w        bool
+	r        int
+	wWaiting int        // writers inside Lock, not yet holding
+	rq       []*rwaiter // readers queued behind a writer
+	passes   int        // queued readers released by the last Unlock and not yet in
 }
+
+type rwaiter struct{ pass bool }
 
 func (m *tableMutex) Lock() {
 	if !VerifSim.Enabled {
@@ -122,9 +130,11 @@ func (m *tableMutex) Lock() {
 		return
 	}
 	simYield("tmu.Lock")
-	for m.w || m.r > 0 {
+	m.wWaiting++
+	for m.w || m.r > 0 || m.passes > 0 {
 		simBlock("tmu.Lock")
 	}
+	m.wWaiting--
 	m.w = true
 }
 
@@ -137,6 +147,11 @@ func (m *tableMutex) Unlock() {
 		panic("verif: Unlock of unlocked table mutex")
 	}
 	m.w = false
+	for _, q := range m.rq {
+		q.pass = true
+	}
+	m.passes += len(m.rq)
+	m.rq = nil
 	simYield("tmu.Unlock")
 }
 
@@ -146,8 +161,25 @@ func (m *tableMutex) RLock() {
 		return
 	}
 	simYield("tmu.RLock")
-	for m.w {
+	var me *rwaiter
+	for m.w || (m.wWaiting > 0 && (me == nil || !me.pass)) {
+		if me == nil {
+			me = &rwaiter{}
+			m.rq = append(m.rq, me)
+		}
 		simBlock("tmu.RLock")
+	}
+	if me != nil {
+		if me.pass {
+			m.passes--
+		} else {
+			for i, q := range m.rq {
+				if q == me {
+					m.rq = append(m.rq[:i], m.rq[i+1:]...)
+					break
+				}
+			}
+		}
 	}
 	m.r++
 }
